@@ -88,48 +88,7 @@ func runC08(c *Ctx) {
 
 	// ---- R08.2
 	if c.need("R08.2", "sink callback field / sink table", r.FChanhCb != nil && r.FChanh != nil) {
-		li := p.lockInfo()
-		n := 0
-		for _, u := range usesOfKind(p.uses(r.FChanhCb), "call") {
-			call := u.At.(*ssa.Call)
-			args := call.Common().Args
-			if len(args) != 2 {
-				continue
-			}
-			k, isK := args[1].(*ssa.Const)
-			if !isK || k.Value == nil || k.Value.String() != "false" {
-				continue
-			}
-			n++
-			fn := u.Fn
-			construct := fmt.Sprintf("%s: close of a sink", fname(fn))
-			isDel := func(in ssa.Instruction) bool {
-				ci, ok := isBuiltinCall(in, "delete")
-				return ok && isLoadOf(ci.Call.Args[0], r.FChanh)
-			}
-			okAll := true
-			start := c.loopBodyStart(call)
-			if !mustPrecedeSince(fn, start, isDel, call) {
-				okAll = false
-				c.bad("R08.2", construct, c.ipos(call), "a sink is closed without first being removed from the table: the same sink is found and closed again (close notification, then connection loss or client close) and the second close of its intake channel panics")
-			}
-			held := false
-			for l := range li.mustAt(call) {
-				if l.Field == r.FChanhLk {
-					held = true
-				}
-			}
-			if !held {
-				okAll = false
-				c.bad("R08.2", construct, c.ipos(call), "the sink is closed without holding its lock")
-			}
-			if okAll {
-				c.ok("R08.2", construct, c.ipos(call), "removed from the table first, under the sink lock")
-			}
-		}
-		if n == 0 {
-			c.bad("R08.2", "close of a sink", "-", "no place closes sinks any more")
-		}
+		c.deleteThenClose("R08.2")
 		// intake closed only under ok == false in the sink closure
 		nclose := 0
 		for _, fn := range p.Funcs {
@@ -400,5 +359,58 @@ func (c *Ctx) freshStreamValue(rule string) {
 	}
 	if n == 0 {
 		c.und(rule, "decode of streamed values", "-", "no JSON decode into a reflect value found in the sink")
+	}
+}
+
+// deleteThenClose: every invocation of a sink callback with ok=false is preceded, under the sink lock,
+// by removing the sink from the table (so the close notification, connection loss and client close cannot
+// each find and close it, and a value frame executed meanwhile cannot send into a closed intake).
+func (c *Ctx) deleteThenClose(rule string) {
+	p, r := c.P, c.R
+	if r.FChanhCb == nil || r.FChanh == nil {
+		c.und(rule, "sink callback field / sink table", "-", "not resolved")
+		return
+	}
+	li := p.lockInfo()
+	n := 0
+	for _, u := range usesOfKind(p.uses(r.FChanhCb), "call") {
+		call := u.At.(*ssa.Call)
+		args := call.Common().Args
+		if len(args) != 2 {
+			continue
+		}
+		k, isK := args[1].(*ssa.Const)
+		if !isK || k.Value == nil || k.Value.String() != "false" {
+			continue
+		}
+		n++
+		fn := u.Fn
+		construct := fmt.Sprintf("%s: close of a sink", fname(fn))
+		isDel := func(in ssa.Instruction) bool {
+			ci, ok := isBuiltinCall(in, "delete")
+			return ok && isLoadOf(ci.Call.Args[0], r.FChanh)
+		}
+		okAll := true
+		start := c.loopBodyStart(call)
+		if !mustPrecedeSince(fn, start, isDel, call) {
+			okAll = false
+			c.bad(rule, construct, c.ipos(call), "a sink is closed without first being removed from the table: the same sink is found and closed again (close notification, then connection loss or client close) and the second close of its intake channel panics")
+		}
+		held := false
+		for l := range li.mustAt(call) {
+			if l.Field == r.FChanhLk {
+				held = true
+			}
+		}
+		if !held {
+			okAll = false
+			c.bad(rule, construct, c.ipos(call), "the sink is closed without holding its lock")
+		}
+		if okAll {
+			c.ok(rule, construct, c.ipos(call), "removed from the table first, under the sink lock")
+		}
+	}
+	if n == 0 {
+		c.bad(rule, "close of a sink", "-", "no place closes sinks any more")
 	}
 }
